@@ -151,6 +151,22 @@ def symbols_of(t):
     return _sym_cache[k]
 
 
+def qf_parts(t, guards=()):
+    """Quantifier-free consequences of an assumption t: t itself when it has no quantifier; for a
+    conjunction / a guarded conjunction the quantifier-free conjuncts (each under the guards); nothing
+    for a quantified leaf.  Sound: every part is implied by t."""
+    if not has_quantifier(t):
+        return [z3.Implies(z3.And(list(guards)), t) if guards else t]
+    if z3.is_and(t):
+        out = []
+        for c in t.children():
+            out.extend(qf_parts(c, guards))
+        return out
+    if z3.is_implies(t) and not has_quantifier(t.arg(0)):
+        return qf_parts(t.arg(1), guards + (t.arg(0),))
+    return []
+
+
 class Obligation:
     def __init__(self, func, kind, label, pc, claim, trail, carries=None, info=None,
                  lineno=None):
@@ -178,7 +194,7 @@ class Obligation:
             # definitional facts (unfolded specification functions, prefix-membership facts of a dict
             # iteration) are kept even when their body has a quantifier: there are few of them and
             # a claim about an unfolded function cannot be proved without its definition
-            pc = [t for t in pc if not has_quantifier(t)]
+            pc = [p for t in pc for p in qf_parts(t)]
         return pc + [z3.Not(self.claim)]
 
     def has_quantified_facts(self):
@@ -187,7 +203,7 @@ class Obligation:
     def formula_coi(self, rounds=3):
         """Cone of influence: only the quantifier-free assumptions that share symbols
         (transitively, `rounds` rounds) with the claim.  Fewer hypotheses: `unsat` is a proof."""
-        pc = [t for t in self.pc if not has_quantifier(t)]
+        pc = [p for t in self.pc for p in qf_parts(t)]
         syms = [symbols_of(t) for t in pc]
         want = set(symbols_of(self.claim))
         keep = [False] * len(pc)
